@@ -40,6 +40,7 @@ class VariantResult:
         self.cover_sat = 0
         self.paths = 0
         self.source_hash = ''
+        self.inlined = {}         # repository functions executed inline (by their body) inside this variant
         self.seconds = 0.0
 
     def as_dict(self):
@@ -196,5 +197,9 @@ def run_variant(src, hier, contract, method, variant, both=False, repo_qual=None
     except Exception as e:      # checker fault, never a violation
         res.status = 'fault'
         res.reason = 'checker exception: %s\n%s' % (e, traceback.format_exc()[-1500:])
+    try:
+        res.inlined = dict(getattr(eng, 'inlined_quals', {}))
+    except NameError:
+        pass
     res.seconds = round(time.time() - t0, 3)
     return res
